@@ -104,23 +104,30 @@ CHECKS["C19"] = {
             "{a , ; ' blank} without leading/trailing blank: split(dumpString(text)) == text. (b) sweep 1: message "
             "kind x addressing x ID shape x field lists of 0-2 (kind x part) with fixed texts (+ thorough: 3 fields "
             "on 6 message shapes); sweep 2: 4 (6) message/field shapes x message comment x unit x field comment "
-            "over all strings of length<=2 (3) of the text alphabet. Checked: dump of a loaded set loads; reloaded "
+            "over all strings of length<=2 (3) of the text alphabet; sweep 3: every sequence (every order) of 1-2 (3) "
+            "fields out of 34 items - references to templates that carry a divisor (UCH/10, UIN/100, UIN/-10, "
+            "UCH/-5, D2C/10) with a further divisor (product a power of ten or not, positive and reciprocal), "
+            "template sets with divisor referenced with a divisor, a value-list template as is, and the same "
+            "effective types defined directly on the root type before/after the reference - on 2 message shapes, "
+            "each file in a forked child whose DataTypeList derived-type cache is pristine. Checked: dump of a loaded set loads; reloaded "
             "messages have identical direction, circuit, name, source, destination, ID, chain IDs+lengths, poll "
             "priority, comment, field count and per field name, part, type/length/bits, divisor, value list, "
-            "constant, unit, comment; second dump == first dump; texts written by the reference encoder are loaded "
+            "constant, unit, comment, and identical decoded text of a fixed sample telegram (object attributes, not dump text); "
+            "second dump == first dump; texts written by the reference encoder are loaded "
             "unchanged. Files the loader rejects are counted, not judged. distinct = distinct quoted lines / texts "
             "/ first-generation dumps.",
     "assumptions": [
         "leading/trailing blanks and blank-only fields are outside the statement (the reader trims)",
         "the double quote is outside the text domain of units/comments (b); it is covered for the splitter in (a)",
         "default columns only: no access level, range column or conditions",
+        "derived number types are cached process-wide (DataTypeList): sweep 3 forks one child per file before the harness process has created any derived type; sweeps 1 and 2 share one process (cache filled in enumeration order)",
     ],
     "runs": [{
         "harness": "c19_roundtrip", "sources": ["engines/msgmc/c19_roundtrip.cpp"],
         "variant": "plain", "libset": "core",
         "quick": {"parts": 16, "deadline": 55,
-                  "bounds": "(a) 3.8e6 field lists; (a2) texts <=5; (b) 216 message shapes x 2971 field lists + 4 x 21^3 text triples"},
+                  "bounds": "(a) 3.8e6 field lists; (a2) texts <=5; (b) 216 message shapes x 2971 field lists + 4 x 21^3 text triples + 2 shapes x 1190 divisor/template field sequences (length<=2) in forked children"},
         "thorough": {"parts": 16, "deadline": 840,
-                     "bounds": "(a) + 1-2 fields of length<=4; (a2) texts <=6; (b) 396 message shapes x 2971 field lists + 6 shapes x 54^3 three-field lists + 6 x 101^3 text triples"},
+                     "bounds": "(a) + 1-2 fields of length<=4; (a2) texts <=6; (b) 396 message shapes x 2971 field lists + 6 shapes x 54^3 three-field lists + 6 x 101^3 text triples + 2 shapes x 40494 divisor/template field sequences (length<=3) in forked children"},
     }],
 }
